@@ -1388,10 +1388,17 @@ spec:
     ensures final(bp).wf(), final(bp).same(old(bp)),
         final(bp).cur() == final(bp).toks().len(),    // [C05] the whole block is consumed
         ev_grown(final(bp).evs(), old(bp).evs()),
+        // [C03] what build_ast relies on: a text paragraph is Start(Text), then only Text events, then End(Text)
+        final(bp).evs().len() >= old(bp).evs().len() + 2,
+        final(bp).evs()[old(bp).evs().len() as int] matches Event::Start(BlockKind::Text),
+        final(bp).evs().last() matches Event::End(BlockKind::Text),
+        forall|k: int| old(bp).evs().len() < k < final(bp).evs().len() - 1 ==> (#[trigger] final(bp).evs()[k]) is Text,
 after `bp.event(Event::Start(BlockKind::Text));`:
     proof { lemma_grown_push(old(bp).evs(), Event::Start(BlockKind::Text)); }
 loop 0:
         invariant bp.wf(), bp.same(old(bp)), ev_grown(bp.evs(), old(bp).evs()),
+            bp.evs().len() >= old(bp).evs().len() + 1, bp.evs()[old(bp).evs().len() as int] matches Event::Start(BlockKind::Text),
+            forall|k: int| old(bp).evs().len() < k < bp.evs().len() ==> (#[trigger] bp.evs()[k]) is Text,
         decreases bp.toks().len() - bp.cur()
 before `let tokens = bp.capture_slice(|bp| {`:
         // (a closure inside a loop cannot use old() on its own &mut parameter in this Verus version:
@@ -2297,5 +2304,105 @@ after `parse_multiline_block(block);`:
 @*/
 } // verus!
 } // mod parser_fns
+
+pub mod ast {
+use vstd::prelude::*;
+use vstd::std_specs::iter::IteratorSpec;
+use crate::*;
+use crate::parser_ev::{Event, BlockKind};
+use crate::parser_model::*;
+use crate::located::Located;
+use crate::text::Text;
+verus! {
+// TRUSTED: core::mem::take returns the old value and leaves T::default() behind
+pub assume_specification<T: Default>[ core::mem::take::<T> ](dest: &mut T) -> (r: T)
+    ensures r == *old(dest), call_ensures(<T as Default>::default, (), *final(dest));
+/*@ type src/parser/model.rs Block
+derive
+@*/
+/*@ type src/parser/model.rs Item
+derive
+@*/
+/*@ type src/ast.rs Ast
+derive
+@*/
+// TRUSTED stand-ins: SourceReport / PassResult are opaque containers here (src/error.rs)
+#[verifier::external_body] pub struct SourceReport { _p: () }
+impl SourceReport {
+    #[verifier::external_body] pub fn empty() -> Self { unimplemented!() }
+    #[verifier::external_body] pub fn push(&mut self, err: crate::error::SourceDiag) { unimplemented!() }
+}
+#[verifier::external_body] #[verifier::reject_recursive_types(T)] pub struct PassResult<T> { _p: core::marker::PhantomData<T> }
+impl<T> PassResult<T> {
+    #[verifier::external_body] pub fn new(output: Option<T>, report: SourceReport) -> Self { unimplemented!() }
+}
+/// an event that pushes a non-text item
+pub open spec fn pushes_non_text<'i>(e: Event<'i>) -> bool { e is Ingredient || e is Cookware || e is Timer }
+/// the block grammar of the pull parser's stream that build_ast relies on: between the Start that opens a text
+/// paragraph and its End(Text) no component event occurs (parse_text_block only queues Text events)
+#[verifier::opaque]
+pub open spec fn text_blocks_ok<'i>(evs: Seq<Event<'i>>) -> bool {
+    forall|j: int| 0 <= j < evs.len() && (#[trigger] evs[j] matches Event::End(BlockKind::Text)) ==>
+        exists|i: int| 0 <= i < j && (#[trigger] evs[i] is Start) && forall|k: int| i < k < j ==> !pushes_non_text(#[trigger] evs[k]) && !(evs[k] is Start)
+}
+pub open spec fn all_text<'i>(items: Seq<Item<'i>>) -> bool { forall|j: int| 0 <= j < items.len() ==> (#[trigger] items[j]) is Text }
+/// since the last Start before index k, no component event was queued
+#[verifier::opaque]
+pub open spec fn clean_since_start<'i>(evs: Seq<Event<'i>>, k: int) -> bool {
+    exists|ls: int| 0 <= ls < k && (#[trigger] evs[ls] is Start) && forall|j: int| ls < j < k ==> !pushes_non_text(#[trigger] evs[j]) && !(evs[j] is Start)
+}
+pub proof fn lemma_clean_step<'i>(evs: Seq<Event<'i>>, k: int)
+    requires 0 <= k < evs.len()
+    ensures (clean_since_start(evs, k + 1) && !(evs[k] is Start)) ==> (clean_since_start(evs, k) && !pushes_non_text(evs[k])),
+        !clean_since_start(evs, 0),
+{
+    reveal(clean_since_start);
+    if clean_since_start(evs, k + 1) && !(evs[k] is Start) {
+        let ls = choose|ls: int| 0 <= ls < k + 1 && (#[trigger] evs[ls] is Start) && forall|j: int| ls < j < k + 1 ==> !pushes_non_text(#[trigger] evs[j]) && !(evs[j] is Start);
+        assert(ls < k);
+        assert(forall|j: int| ls < j < k ==> !pushes_non_text(#[trigger] evs[j]) && !(evs[j] is Start));
+    }
+}
+pub proof fn lemma_end_text<'i>(evs: Seq<Event<'i>>, k: int)
+    requires 0 <= k < evs.len()
+    ensures (text_blocks_ok(evs) && (evs[k] matches Event::End(BlockKind::Text))) ==> clean_since_start(evs, k)
+{ reveal(clean_since_start); reveal(text_blocks_ok); }
+pub proof fn lemma_clean0<'i>(evs: Seq<Event<'i>>) ensures !clean_since_start(evs, 0) { reveal(clean_since_start); }
+/*@ fn src/ast.rs build_ast
+tags C03
+ret r
+desugar_for 0
+spec:
+    requires events.obeys_prophetic_iter_laws(), events.decrease().is_some(),
+        // the block grammar of the pull parser's event stream (parse_text_block queues only Text between Start and End(Text))
+        text_blocks_ok(events.remaining()),
+before `for event in events {`:
+    let ghost mut idx: int = 0;      // number of events consumed so far
+    proof { assert(events.remaining().skip(0) =~= events.remaining()); lemma_clean0(events.remaining()); }
+loop 0:
+        invariant __it0.obeys_prophetic_iter_laws(), __it0.decrease().is_some(),
+            text_blocks_ok(events.remaining()),
+            0 <= idx <= events.remaining().len(), __it0.remaining() == events.remaining().skip(idx),
+            clean_since_start(events.remaining(), idx) ==> all_text(items@),
+        decreases __it0.decrease().unwrap()
+loopbody 0:
+        let ghost k = idx;
+        proof {
+            let evs = events.remaining();
+            assert(evs.skip(k).len() > 0);
+            assert(evs.skip(k).drop_first() =~= evs.skip(k + 1));
+            assert(evs.skip(k)[0] == evs[k]);
+            assert(event == evs[k]);
+            idx = k + 1;
+            lemma_clean_step(evs, k);
+            lemma_end_text(evs, k);
+        }
+closure @ `|i| {` `Item<'i>` ret `t: Text<'i>`:
+        requires i is Text
+@*/
+} // verus!
+// stand-in Debug impl (panic message formatting is not part of any contract)
+impl std::fmt::Debug for Item<'_> { fn fmt(&self, f: &mut std::fmt::Formatter<'_>) -> std::fmt::Result { f.write_str("Item") } }
+} // mod ast
 
 fn main() {}
